@@ -615,6 +615,19 @@ def _r5_termination(run: Run, mod) -> None:
                 run.violate("R5", f"{MOD}:{c.name}._eval_derivative:{norm(call, 50)}", mod, call,
                             f"{c.name}._eval_derivative {why}: differentiating such an expression with a parameter-dependent operand never terminates")
     run.floor("R5", n, 8, "diff() calls inside _eval_derivative methods")
+    # scalar-valued products are ordinary commuting scalars for SymPy: without the declaration is_commutative is None and SymPy keeps
+    # dot(a, b)*dot(c, d) and dot(c, d)*dot(a, b) apart, refuses to solve equations containing them, and orders factors by creation history
+    for c in classes.values():
+        if [dotted(b) for b in c.bases] != ["Expr"] or not any(isinstance(f_, ast.FunctionDef) and f_.name == "__new__" for f_ in c.body):
+            continue
+        run.ob("R2", f"{c.name}:commutative-scalar")
+        decl = {t.id: a.value for a in c.body if isinstance(a, ast.Assign) for t in a.targets if isinstance(t, ast.Name)}
+        v = decl.get("is_commutative")
+        rl = decl.get("is_real")  # real -> complex -> commutative in SymPy's assumption system
+        if not ((isinstance(v, ast.Constant) and v.value is True) or (isinstance(rl, ast.Constant) and rl.value is True)):
+            run.violate("R2", f"{MOD}:{c.name}:is_commutative", mod, c,
+                        f"{c.name} is a scalar-valued product but declares neither `is_commutative = True` nor `is_real = True` (which implies it): SymPy treats it as a non-commutative factor, so "
+                        f"{c.name}(a, b)*x - x*{c.name}(a, b) does not cancel and the form of a result depends on the order the factors were written in")
     # differentiation enters these classes only through _eval_derivative (decided by R3/R5); any other SymPy differentiation hook would bypass both rules
     OTHER_HOOKS = ("_eval_derivative_n_times", "fdiff", "diff", "_eval_diff", "_eval_derivative_matrix_lines")
     for c in classes.values():
